@@ -112,6 +112,59 @@ Definition consulted (q : request) : list bytes :=
   (match header_value (q_xff q) with Some v => [trim_space (first_part v)] | None => [] end).
 End WithParser.
 
+(* ---- the settings layer (internal/settings: args.go, env.go, settings.go) in front of the authorizer ------
+   Sources: command line flags (-trustForwardedHeaders[=b], -trustedProxyCIDRs=raw; [None] = flag not given) and
+   environment (PITHOS_TRUST_FORWARDED_HEADERS, PITHOS_TRUSTED_PROXY_CIDRS; "" = unset).  LoadSettings merges
+   command line first, environment second.  cmd/pithos.go passes TrustForwardedHeaders() and TrustedProxyCIDRs() to
+   NewLuaAuthorizerWithOptions. *)
+Record sources := mkSources {
+  cli_trust : option bool;
+  cli_cidrs : option bytes;
+  env_trust : bytes;
+  env_cidrs : bytes
+}.
+
+(* strings.Split(raw, ","), TrimSpace, drop empty parts (args.go and getStringSliceFromEnv) *)
+Definition split_list (raw : bytes) : list bytes :=
+  filter (fun e => negb (is_empty e)) (map trim_space (split_on ","%byte raw)).
+
+(* getBoolFromEnv *)
+Definition env_bool (v : bytes) : option bool :=
+  if is_empty v then None
+  else let l := to_lower v in Some (bytes_eqb l B"1" || bytes_eqb l B"t" || bytes_eqb l B"true").
+
+Definition cli_list (s : sources) : option (list bytes) := option_map split_list (cli_cidrs s).
+Definition env_list (s : sources) : option (list bytes) :=
+  if is_empty (env_cidrs s) then None else Some (split_list (env_cidrs s)).
+Definition cli_entries (s : sources) : list bytes := match cli_list s with Some l => l | None => [] end.
+Definition env_entries (s : sources) : list bytes := match env_list s with Some l => l | None => [] end.
+
+(* Settings.merge for a pointer field: a later non-nil value wins; default false *)
+Definition merged_trust (s : sources) : bool :=
+  match env_bool (env_trust s) with
+  | Some b => b
+  | None => match cli_trust s with Some b => b | None => false end
+  end.
+
+(* Settings.merge for the slice field, then TrustedProxyCIDRs() (nil -> empty).
+   [mfix = false]: the code as it is — non-pointer fields are overwritten unconditionally, so the environment's
+   value (nil when the variable is unset) always replaces the command line's list.
+   [mfix = true]: after fixes/C32-settings-merge-slices.patch — a slice is merged only when it is non-empty. *)
+Definition merged_cidrs (mfix : bool) (s : sources) : list bytes :=
+  if mfix then
+    match env_list s with
+    | Some (e :: l) => e :: l
+    | _ => cli_entries s
+    end
+  else env_entries s.
+
+Section EndToEnd.
+Variable pip : bytes -> option N.           (* net.ParseIP *)
+Variable pcidr : bytes -> option cidr.      (* net.ParseCIDR *)
+Definition e2e_resolve (mfix : bool) (s : sources) (q : request) : client * bytes :=
+  resolve_gen pip true (merged_trust s) (map pcidr (merged_cidrs mfix s)) q.
+End EndToEnd.
+
 (* ---- line protocol ------------------------------------------------------------------------------
    <trust 0|1 (code as it is) | F0|F1 (after the fix)> <cfg> <peer> <scheme> <cf> <xff> <proto> <keycase> <iptable>
    cfg     : "_" | comma separated  <hex text>=<X | 4/<addr128>/<len> | 6/<addr128>/<len>>
@@ -194,8 +247,42 @@ Definition parse_trust (t : bytes) : option (bool * bool) :=   (* (fixed?, trust
   | [] => None
   end.
 
-Definition run_line (l : bytes) : bytes :=
-  match tokens l with
+(* settings-level lines:
+   S0|S1 <cli trust N|0|1> <cli cidrs N|S<hex raw>> <env trust hex> <env cidrs hex> <peer> <scheme> <cf> <xff> <proto>
+         <keycase> <iptable> <cidrtable>          (S0 = merge as it is, S1 = merge after the proposed fix)
+   cidrtable : "_" | comma separated <hex text>=<X | 4/<addr128>/<len> | 6/<addr128>/<len>> for every entry text *)
+Definition parse_cidr_table_entry (t : bytes) : option (bytes * option cidr) :=
+  match split2 "="%byte t with
+  | Some (txt, claim) =>
+      match untok_bytes txt, parse_cidr_claim claim with Some x, Some c => Some (x, c) | _, _ => None end
+  | None => None
+  end.
+Definition parse_cidr_table (t : bytes) : option (list (bytes * option cidr)) :=
+  if bytes_eqb t B"_" then Some [] else mapM parse_cidr_table_entry (split_on ","%byte t).
+Definition table_pcidr (tbl : list (bytes * option cidr)) (t : bytes) : option cidr :=
+  match lookup t tbl with Some (Some c) => Some c | _ => None end.
+Definition parse_optbool (t : bytes) : option (option bool) :=
+  if bytes_eqb t B"N" then Some None else option_map Some (parse_bool t).
+
+Definition run_settings_line (mfix : bool) (toks : list bytes) : bytes :=
+  match toks with
+  | [ct; cc; et; ec; peer; sch; cf; fwdfor; proto; _kc; tbl; ctbl] =>
+      do ct <- parse_optbool ct; do cc <- parse_optS cc; do et <- untok_bytes et; do ec <- untok_bytes ec;
+      do peer <- parse_optS peer; do sch <- untok_bytes sch;
+      do cf <- parse_hdr cf; do fwdfor <- parse_hdr fwdfor; do proto <- parse_hdr proto;
+      do tbl <- parse_table tbl; do ctbl <- parse_cidr_table ctbl;
+      let s := mkSources ct cc et ec in
+      let q := mkReq peer sch cf fwdfor proto in
+      if negb (forallb (fun t => match lookup t tbl with Some _ => true | None => false end) (consulted q))
+         || negb (forallb (fun t => match lookup t ctbl with Some _ => true | None => false end) (merged_cidrs mfix s))
+      then B"MISSING-PARSE"
+      else let '(c, sc) := e2e_resolve (table_pip tbl) (table_pcidr ctbl) mfix s q in
+           show_client tbl peer c ++ B" " ++ tok_bytes sc
+  | _ => parse_error
+  end.
+
+Definition run_authorizer_line (toks : list bytes) : bytes :=
+  match toks with
   | [tr; cfg; peer; sch; cf; fwdfor; proto; _kc; tbl] =>
       do trf <- parse_trust tr; do cfg <- parse_cfg cfg; do peer <- parse_optS peer; do sch <- untok_bytes sch;
       do cf <- parse_hdr cf; do fwdfor <- parse_hdr fwdfor; do proto <- parse_hdr proto; do tbl <- parse_table tbl;
@@ -206,3 +293,13 @@ Definition run_line (l : bytes) : bytes :=
            show_client tbl peer c ++ B" " ++ tok_bytes s
   | _ => parse_error
   end.
+
+Definition run_line (l : bytes) : bytes :=
+  match tokens l with
+  | first :: rest =>
+      if bytes_eqb first B"S0" then run_settings_line false rest
+      else if bytes_eqb first B"S1" then run_settings_line true rest
+      else run_authorizer_line (first :: rest)
+  | [] => parse_error
+  end.
+
